@@ -2,7 +2,7 @@
     Model: FV.Units (compatible_units / equivalent_units / _cache_units / to_units / prepare /
     Info.accepts / Output >> Input link; pint is an oracle modelled by the catalogue table).
     This file contains only statements; proofs are in FVP.Units_proofs. *)
-From Coq Require Import List ZArith QArith Bool.
+From Coq Require Import List ZArith QArith Bool Arith.
 From FV Require Import Base Units.
 From FVP Require Import Units_proofs.
 Import ListNotations.
@@ -140,8 +140,9 @@ Example C17_memo_pure_nonvacuous :
   /\ length (final [] ex_ops) = 8%nat.
 Proof.
   split; [|split; vm_compute; reflexivity].
-  intros e He. vm_compute in He. vm_compute.
-  repeat (destruct He as [He|He]; [subst e; tauto|]). destruct He.
+  intros e He. unfold ex_ops, ops_ents in He. cbn [flat_map op_ents app] in He.
+  repeat (destruct He as [<-|He]; [unfold U; apply nth_In; apply Nat.ltb_lt; vm_compute; reflexivity|]).
+  destruct He.
 Qed.
 
 (* compatible / equivalent on concrete units: m vs km (compatible, not equivalent),
